@@ -368,7 +368,8 @@ func checkScanner(in string, ref refResult, frag []int, eofWith bool, reuse *she
 		desc += fmt.Sprintf(" source kind %d (1 strings.Reader, 2 bytes.Buffer, 3 bufio.Reader, 4 bufio 64K, 5 bufio 16, 6 LimitReader)", src%7)
 	}
 	// Next/Text/Complete
-	sc := shell.NewScanner(mk())
+	grow := &fragReader{data: []byte(in), frag: frag, eofWith: eofWith}
+	sc := shell.NewScanner(srcReader(src, in, grow))
 	var got []string
 	for sc.Next() {
 		got = append(got, sc.Text())
@@ -383,8 +384,14 @@ func checkScanner(in string, ref refResult, frag []int, eofWith bool, reuse *she
 		return fmt.Sprintf("%s: Complete() = %v after the last token, reference %v", desc, sc.Complete(), ref.Complete)
 	}
 	for k := 0; k < 3; k++ {
+		if k == 1 {
+			// a source that yields more bytes after it has reported io.EOF (a
+			// buffer written to later, a file that grows): the scanner has
+			// stopped and must stay stopped
+			grow.data, grow.i = []byte("late 'tokens' x "), 0
+		}
 		if sc.Next() {
-			return fmt.Sprintf("%s: Next returned true again after the end of input (token %q)", desc, sc.Text())
+			return fmt.Sprintf("%s: Next returned true again after the end of input (token %q; from its second try on the source had more bytes to give after its io.EOF)", desc, sc.Text())
 		}
 	}
 	// Each
